@@ -8,12 +8,16 @@ mod oracle_mcf;
 mod oracle_net;
 mod oracle_out;
 mod refmodel;
+mod refstate;
 mod rng;
 mod seams;
 mod selftest;
 mod shrink;
 mod sim_a;
 mod sim_b;
+mod sim_b_tour;
+mod sim_b_trans;
+mod sim_b_walk;
 mod sim_c;
 mod worker;
 
